@@ -82,6 +82,19 @@ def pick(a: int, b: int) -> int:
 
 
 def _walk_modules(args) -> list[dict]:
+	try:
+		return _walk_modules_impl(args)
+	except Machinery:
+		raise
+	except Exception as e:
+		# loading / walking a real module failed: on a tree where the property holds this does not happen
+		import traceback
+		tb = traceback.extract_tb(e.__traceback__)
+		where = next((f'{os.path.basename(fr.filename)}:{fr.name}' for fr in reversed(tb) if '/rogw/tranp/' in fr.filename), '?')
+		return [{'tree': [], 'events': [{'name': 'crash', 'error': f'{type(e).__name__} at {where}: {str(e)[:200]}'}], 'legend': [], 'label': f'A:{args[0][0]}:pipeline'}]
+
+
+def _walk_modules_impl(args) -> list[dict]:
 	module_paths, seed, with_walkers = args
 	from harness.tranp_env import Env, enter_scratch
 	from harness.proc_binding import WalkerRecorder, identity_walk
@@ -96,6 +109,12 @@ def _walk_modules(args) -> list[dict]:
 		tr = identity_walk([entry])
 		tr['label'] = f'A:{module_path}:plain'
 		out.append(tr)
+		# (1b) ONE walker instance over two different trees (same entry paths, different shapes)
+		if module_path != 'verif_sample':
+			other = env.load('verif_sample').entrypoint
+			tr = identity_walk([other, entry, other])
+			tr['label'] = f'A:{module_path}:two-trees-one-walker'
+			out.append(tr)
 		# (2) walks of each top-level statement with nested runs started inside handlers; then a failing one and a rerun
 		stmts = entry.statements
 		roots = [stmts[i] for i in sorted(rnd.sample(range(len(stmts)), min(len(stmts), 12)))]
